@@ -121,7 +121,8 @@ PROPS = {
         "trusted": ["T1", "T4", "T8", "T11", "T12", "T13", "T13s", "TLOG", "TARC", "RW", "DERIVE"],
         "assumptions": [
             "(a) the World offers no overwrite / truncate / rename / reopen-for-write operation, and extracted code can only change the directory through it; (b) log::create is proved to open with exactly {append, create_new} and log::open with {read} (unit log); (c) every creation site satisfies C14.create.fresh (id above every id the directory ever contained; a hint file only for an existing data file without one); (d) after every Ok write / merge the active file's last record starts at or below max_file_size (C14.size.one_entry)",
-            "crash clause ('after a crash at any point'): not covered -- only the id chosen at open is proved larger than every existing id (C14.open.fresh_id)",
+            "'every id the directory has EVER contained': the World records every id ever created (`ever`); top_exists(w) says the file with the largest id ever used still exists. new_active_datafile, write and merge keep / establish it (C14.ids.top_kept), every unlink inside merge is followed by a ghost checkpoint that requires it at that very point (C14.unlink.top_kept: an output with a larger id exists throughout the removals), and rebuild_storage's id is then above every id ever used (second clause of C14.open.fresh_id). Since a kill leaves the World after a prefix of the World calls, this covers 'directories left by a crash' for the id clause at the call boundaries of write and of the removal loop; the copy loop of merge only creates files (ids above everything) and is covered by C14.create.fresh",
+            "crash clause for the OTHER clauses (append-only, exclusive creation) needs nothing beyond (a)-(c): they are statements about each single file-system call",
             "code that is not extracted (Bitcask::open wiring, binaries) could open files another way",
         ],
     },
